@@ -79,7 +79,7 @@ def obsS (T : Tun) (ob : Obj) (mark : String := "") : String :=
     | some s2 => s2.offset != s.offset || s2.total != s.total || s2.tab.numActive != s.map.length || s2.tab.lgCur != s.lgCur
     | none => false
   let m := (if bad then " L1!=L2" else "") ++ mark
-  s!"S {fmtW ob.wty s.total} {fmtW ob.wty s.offset} {s.map.length} {boolStr (isEmpty s)} {epsHex T s.lgMax}{m}"
+  s!"S {fmtW ob.wty s.total} {fmtW ob.wty s.offset} {s.map.length} {boolStr (isEmptyF T s)} {epsHex T s.lgMax}{m}"
 
 def chooseWith (hint : Option Nat) (sample : List Nat) : Nat :=
   let med := medianOf sample
@@ -142,14 +142,14 @@ def explains (m : St2) (target : Nat) (nact sumLb : Option Nat) : Bool :=
 def mergeByRank (T : Tun) (d2 s2 : St2) (target : Nat) (nact sumLb : Option Nat) : Nat → Option (St2 × List (Ent Nat))
   | 0 => none
   | r + 1 =>
-    let (m, log, _) := merge2 T idHash (chooseRank r) d2 s2
+    let (m, log, _) := merge2F T idHash (chooseRank r) d2 s2
     if explains m target nact sumLb then some (m, log)
     else mergeByRank T d2 s2 target nact sumLb r
 
 def doMerge (T : Tun) (d s : Obj) (hint : Option Nat) (nact sumLb : Option Nat) : Obj × String :=
   match d.l2, s.l2 with
   | some d2, some s2 =>
-    let (r2, log, threw) := merge2 T idHash medianOf d2 s2
+    let (r2, log, threw) := merge2F T idHash medianOf d2 s2
     if threw then
       -- DRIFT_LIMIT exception in the middle of the replay: the L1 state follows the L2 replay up to that point
       let ents : List (Ent String) := log.map (fun e => (toString e.1, e.2.1, e.2.2))
@@ -158,17 +158,17 @@ def doMerge (T : Tun) (d s : Obj) (hint : Option Nat) (nact sumLb : Option Nat) 
     let (r2, log) :=
       match hint with
       | some dl =>
-        if s2.tab.numActive = 0 || explains r2 (d2.offset + dl) nact sumLb then (r2, log) else
+        if (if T.emptyByTotal then s2.total = 0 else s2.tab.numActive = 0) || explains r2 (d2.offset + dl) nact sumLb then (r2, log) else
         match mergeByRank T d2 s2 (d2.offset + dl) nact sumLb (min 64 ((capacity T d2.tab.lgMax + 1) / 2)) with
         | some r => r
         | none => (r2, log)
       | none => (r2, log)
     let ents : List (Ent String) := log.map (fun e => (toString e.1, e.2.1, e.2.2))
-    ({ d with l1 := merge T d.l1 s.l1 ents, l2 := some r2 }, "")
+    ({ d with l1 := mergeF T d.l1 s.l1 ents, l2 := some r2 }, "")
   | _, _ =>
-    if s.l1.map.isEmpty then (d, "") else
+    if isEmptyF T s.l1 then (d, "") else
     let (_, ents, purged) := replayMed T d.l1 s.l1.map [] false
-    ({ d with l1 := merge T d.l1 s.l1 ents, l2 := none }, if purged then " L1-merge-with-purge" else "")
+    ({ d with l1 := mergeF T d.l1 s.l1 ents, l2 := none }, if purged then " L1-merge-with-purge" else "")
 
 def thrOf (ob : Obj) (spec : String) : Option Nat :=
   let off := ob.l1.offset
@@ -231,10 +231,10 @@ def stepLine (T : Tun) (o : Objs) (w : List String) : Objs × String :=
       | some ob =>
         match ob.l2 with
         | some s2 =>
-          match roundtrip2 T idHash s2 with
-          | some r2 => let ob' := { ob with l1 := roundtrip T ob.l1, l2 := some r2 }; (o.set' nid ob', obsS T ob')
+          match roundtrip2F T idHash s2 with
+          | some r2 => let ob' := { ob with l1 := roundtripF T ob.l1, l2 := some r2 }; (o.set' nid ob', obsS T ob')
           | none => (o, "throw")
-        | none => let ob' := { ob with l1 := roundtrip T ob.l1 }; (o.set' nid ob', obsS T ob')
+        | none => let ob' := { ob with l1 := roundtripF T ob.l1 }; (o.set' nid ob', obsS T ob')
       | none => (o, "throw")
     | _, _ => (o, "bad-op")
   | "q" :: id :: items =>
